@@ -10,6 +10,7 @@ import (
 
 	"verifharness/common"
 	_ "verifharness/engines/lookup"
+	_ "verifharness/engines/net"
 	_ "verifharness/engines/store"
 	_ "verifharness/engines/table"
 )
